@@ -82,6 +82,32 @@ type Stamp struct {
 	CreatedNano  int64 `gorm:"autoCreateTime:nano"`
 }
 
+// Guarded: Before* hooks that change the statement (add a condition, set a column) or veto it.
+type Guarded struct {
+	ID   uint `gorm:"primaryKey"`
+	Name string
+	Rev  int64
+}
+
+func guardedVeto(g *Guarded) error {
+	if g.Name == "veto" {
+		return errors.New("vetoed by hook")
+	}
+	return nil
+}
+func (g *Guarded) BeforeDelete(tx *gorm.DB) error {
+	tx.Statement.AddClause(clause.Where{Exprs: []clause.Expression{clause.Neq{Column: "name", Value: "locked"}}})
+	return guardedVeto(g)
+}
+func (g *Guarded) BeforeUpdate(tx *gorm.DB) error {
+	tx.Statement.AddClause(clause.Where{Exprs: []clause.Expression{clause.Gte{Column: "rev", Value: 0}}})
+	return guardedVeto(g)
+}
+func (g *Guarded) BeforeCreate(tx *gorm.DB) error {
+	tx.Statement.SetColumn("Rev", int64(41))
+	return guardedVeto(g)
+}
+
 var oldTime = time.Date(2020, 1, 2, 3, 4, 5, 0, time.UTC)
 
 var fixedNow = time.Date(2024, 5, 6, 7, 8, 9, 0, time.UTC)
@@ -123,6 +149,8 @@ type Run struct {
 
 type Observed struct {
 	Dry, Real Run
+	ToSQL     string `json:"tosql"`     // the string DB.ToSQL returned
+	Explained string `json:"explained"` // Dialector.Explain of the statement the dry handle exposed
 }
 
 func threeDocs(x XOp) []Doc {
@@ -165,6 +193,24 @@ func xFin(db *gorm.DB, x XOp) *gorm.DB {
 		}
 		var n int64
 		return db.Raw("SELECT count(*) FROM docs WHERE title <> ?", x.Title).Count(&n)
+	case "guard_delete", "guard_delete_veto": // BeforeDelete adds a condition to the statement / refuses
+		g := &Guarded{ID: uint(x.ID)}
+		if x.K == "guard_delete_veto" {
+			g.Name = "veto"
+		}
+		return db.Delete(g)
+	case "guard_update", "guard_update_veto":
+		g := &Guarded{ID: uint(x.ID)}
+		if x.K == "guard_update_veto" {
+			g.Name = "veto"
+		}
+		return db.Model(g).Update("rev", 7)
+	case "guard_create", "guard_create_veto": // BeforeCreate sets a column / refuses
+		g := &Guarded{Name: x.Title}
+		if x.K == "guard_create_veto" {
+			g.Name = "veto"
+		}
+		return db.Create(g)
 	case "stamp_create":
 		return db.Create(&Stamp{Name: x.Title})
 	case "stamp_create_slice":
@@ -330,7 +376,7 @@ func openEnv(noReturning bool) env {
 		return db
 	}
 	e := env{real: mk(false), dryCfg: mk(true), rec: rec, sqlDB: sqlDB}
-	lib.Must(e.real.AutoMigrate(&cgen.Item{}, &Doc{}, &Owner{}, &Pet{}, &Tag{}, &Note{}, &Audit{}, &Stamp{}))
+	lib.Must(e.real.AutoMigrate(&cgen.Item{}, &Doc{}, &Owner{}, &Pet{}, &Tag{}, &Note{}, &Audit{}, &Stamp{}, &Guarded{}))
 	e.reseed()
 	return e
 }
@@ -338,7 +384,8 @@ func openEnv(noReturning bool) env {
 // reseed restores the data both runs start from (through database/sql directly).
 func (e env) reseed() {
 	for _, q := range []string{
-		"DELETE FROM items", "DELETE FROM docs", "DELETE FROM owners", "DELETE FROM pets", "DELETE FROM notes", "DELETE FROM audits", "DELETE FROM tags", "DELETE FROM owner_tags", "DELETE FROM stamps",
+		"DELETE FROM items", "DELETE FROM docs", "DELETE FROM owners", "DELETE FROM pets", "DELETE FROM notes", "DELETE FROM audits", "DELETE FROM tags", "DELETE FROM owner_tags", "DELETE FROM stamps", "DELETE FROM guardeds",
+		"INSERT INTO guardeds (id, name, rev) VALUES (1,'g1',1),(2,'locked',1)",
 		"INSERT INTO stamps (id, name, created_at, updated_milli, created_nano) VALUES (1,'s1',1,1,1),(2,'s2',2,2,2)",
 		"INSERT INTO notes (id, body) VALUES (1,'n1'),(2,'n2')",
 		"INSERT INTO tags (id, name) VALUES (1,'t1'),(2,'t2')",
@@ -425,10 +472,11 @@ func runCase(envs [2]env, in Input) Observed {
 	case "tosql":
 		o.Dry = capture(e, true, in.FailBegin, func() *gorm.DB {
 			var res *gorm.DB
-			opBase(opts(e.real, false), in).ToSQL(func(tx *gorm.DB) *gorm.DB {
+			o.ToSQL = opBase(opts(e.real, false), in).ToSQL(func(tx *gorm.DB) *gorm.DB {
 				res = opFin(tx, in)
 				return res
 			})
+			o.Explained = e.real.Dialector.Explain(res.Statement.SQL.String(), res.Statement.Vars...)
 			return res
 		})
 	}
@@ -451,6 +499,12 @@ func classify(in Input) (kind, fin string, ret bool) {
 			return "OpCreate", "(FNested 0 1)", true
 		case "raw_find", "raw_first", "raw_take", "raw_last", "raw_pluck", "raw_count":
 			return "OpQuery", fin, false
+		case "guard_delete", "guard_delete_veto":
+			return "OpDelete", fin, false
+		case "guard_update", "guard_update_veto":
+			return "OpUpdate", fin, false
+		case "guard_create", "guard_create_veto":
+			return "OpCreate", fin, true
 		case "stamp_create", "stamp_create_slice", "stamp_create_map":
 			return "OpCreate", fin, true
 		case "stamp_update", "stamp_updates_struct":
@@ -580,6 +634,7 @@ func term(in Input, o Observed) string {
 	}
 	return lib.App("mk_case", kind, fin, mode, lib.Bool(in.Skip), lib.Bool(ret), lib.List(orc), lib.List(dorc),
 		lib.ListOf(o.Dry.Log, gEv), lib.Str(o.Dry.SQL), lib.ListOf(o.Dry.Vars, func(s cgen.Sc) string { return s.Coq() }), lib.Bool(o.Dry.Err != ""),
+		lib.Str(o.ToSQL), lib.Str(o.Explained),
 		lib.ListOf(o.Real.Log, gEv), lib.Bool(o.Real.Err != ""))
 }
 
@@ -671,7 +726,8 @@ func main() {
 		"save_slice_preset", "save_struct_preset",
 		"hook_update", "hook_delete", "assoc_delete_m2m", "parse_error", "first_nilptr", "exec_bad",
 		"raw_find", "raw_first", "raw_take", "raw_last", "raw_pluck", "raw_count",
-		"stamp_create", "stamp_create_slice", "stamp_create_map", "stamp_update", "stamp_updates_struct", "stamp_save"}
+		"stamp_create", "stamp_create_slice", "stamp_create_map", "stamp_update", "stamp_updates_struct", "stamp_save",
+		"guard_delete", "guard_delete_veto", "guard_update", "guard_update_veto", "guard_create", "guard_create_veto"}
 	n := 0
 	for i := 0; i < budget; i++ {
 		in := Input{Mode: lib.Pick(r, []string{"config", "session", "tosql"}), Skip: r.Chance(1, 3)}
@@ -721,6 +777,6 @@ func main() {
 		}
 		add(kind, in)
 	}
-	out.Extra["rule"] = "cases = operation x DryRun mode {Config.DryRun, Session{DryRun}, ToSQL} x SkipDefaultTransaction {false,true}; operation = a C01 chain+finisher on Item (Find/First/Take/Last/Count/Pluck, Update/Updates, Delete, Create from struct/slice/map/[]map incl. OnConflict, Exec, Raw+Scan) or an operation on Doc (soft delete, tracked update time, pinned NowFunc): Create, Update, soft Delete, Unscoped Delete, Find, First, Rows, Save of an existing / missing / new record, Update / soft Delete / Unscoped Delete with clause.Returning{}, Update / Updates / UpdateColumn / Delete without any condition (refused with ErrMissingWhereClause; also a sixth of the C01 update/delete chains lose their conditions), Find / First / Count / Update finishing a handle that already carries Model+Where+Order when DryRun or ToSQL is switched on (also a third of the C01 chains), statements derived through Session{NewDB} (an AfterCreate hook running Exec on its tx, Delete with Select(Pets) / Select(clause.Associations), Preload on a destination that already has its key), an operation inside Begin()...Rollback() on a dry handle, Row() on a chain and on Raw UPDATE ... RETURNING, raw SQL finished by Find / First / Take / Last / Pluck / Count, Create (struct, slice, map) / Update / Updates / Save on a model whose tracked times are integers (seconds, autoUpdateTime:milli, autoCreateTime:nano), Scan on a chain, Save of a slice / of a struct whose tracked update time is already set (pinned clock; every bound value compared), CreateInBatches and Create with CreateBatchSize over more rows than the batch size; both runs start from the same re-seeded tables on identical SQLite handles behind the recording driver; statements SQLite rejects are kept (the real run then rolls back); distinct = distinct (mode, skip, operation skeleton); non-trivial = the real run sends at least one statement and the dry run exposes at least one bound value"
+	out.Extra["rule"] = "cases = operation x DryRun mode {Config.DryRun, Session{DryRun}, ToSQL} x SkipDefaultTransaction {false,true}; operation = a C01 chain+finisher on Item (Find/First/Take/Last/Count/Pluck, Update/Updates, Delete, Create from struct/slice/map/[]map incl. OnConflict, Exec, Raw+Scan) or an operation on Doc (soft delete, tracked update time, pinned NowFunc): Create, Update, soft Delete, Unscoped Delete, Find, First, Rows, Save of an existing / missing / new record, Update / soft Delete / Unscoped Delete with clause.Returning{}, Update / Updates / UpdateColumn / Delete without any condition (refused with ErrMissingWhereClause; also a sixth of the C01 update/delete chains lose their conditions), Find / First / Count / Update finishing a handle that already carries Model+Where+Order when DryRun or ToSQL is switched on (also a third of the C01 chains), statements derived through Session{NewDB} (an AfterCreate hook running Exec on its tx, Delete with Select(Pets) / Select(clause.Associations), Preload on a destination that already has its key), an operation inside Begin()...Rollback() on a dry handle, Row() on a chain and on Raw UPDATE ... RETURNING, raw SQL finished by Find / First / Take / Last / Pluck / Count, delete / update / create on a model whose Before* hooks add a condition, set a column or veto the operation, the string ToSQL returns compared with the explained exposed statement, Create (struct, slice, map) / Update / Updates / Save on a model whose tracked times are integers (seconds, autoUpdateTime:milli, autoCreateTime:nano), Scan on a chain, Save of a slice / of a struct whose tracked update time is already set (pinned clock; every bound value compared), CreateInBatches and Create with CreateBatchSize over more rows than the batch size; both runs start from the same re-seeded tables on identical SQLite handles behind the recording driver; statements SQLite rejects are kept (the real run then rolls back); distinct = distinct (mode, skip, operation skeleton); non-trivial = the real run sends at least one statement and the dry run exposes at least one bound value"
 	lib.Must(out.Flush())
 }
